@@ -26,7 +26,10 @@ def gen_arb(rng, tier, idx=None, soak_in_quick=True):
     if idx is not None and (idx % (480 if tier == "quick" else 600)) in (3, 5) and (tier != "quick" or soak_in_quick):
         # soak scenarios (one of each per quick run, ten per thorough run): anything that counts cycles or transfers
         # behind the scenes (a watchdog, a fairness time-out) needs tens of thousands of cycles to show
-        soak = "soak_unanswered" if idx % 2 else "soak_burst"
+        soak = "soak_unanswered" if idx % (480 if tier == "quick" else 600) == 3 else "soak_burst"
+        if tier == "quick" and soak_in_quick == "unanswered" and soak != "soak_unanswered":
+            soak = None
+    if soak is not None:
         n = rng.choice([2, 3])
     quiet = None
     if idx is not None and idx % 40 == 7:
@@ -55,7 +58,7 @@ def gen_arb(rng, tier, idx=None, soak_in_quick=True):
         if "lock" not in intrs[k]["features"]:
             intrs[k]["features"].append("lock")
         intrs[k]["behaviour"] = "parker"
-        case["cycles"] = rng.choice([900, 1500])
+        case["cycles"] = rng.choice([900, 1500, 2600])       # (the longest ones park for more than 2**10 / 2**11 cycles)
     elif x < 0.2 and n >= 2:
         # the same interface object registered twice (it gets two turns per rotation); only objects without a STALL
         # input are duplicated (with STALL the unchanged arbiter drives the later slot's placeholder, which is outside
@@ -80,6 +83,8 @@ def gen_arb(rng, tier, idx=None, soak_in_quick=True):
         # one transfer stays unanswered for more than 2**16 cycles (flash erase, a bridge to a slow bus)
         case.update(scenario="soak_unanswered", cycles=66600, slots=None)
         case.pop("slots")
+        if "lock" not in afeat and rng.random() < 0.7:
+            afeat.append("lock")       # (with LOCK the bus is re-arbitrated in the pause that follows the answered transfer)
         for d in intrs:
             d["behaviour"] = "greedy"
         intrs[rng.randrange(n)]["behaviour"] = "patient"
@@ -236,7 +241,7 @@ def run_arb_case(case, judged):
         beh = d["behaviour"]
         if st["hold"][i] > 0 and st["held"][i] is not None:
             st["hold"][i] -= 1
-            r = dict(st["held"][i])
+            r = {k_: v_ for k_, v_ in st["held"][i].items() if k_ != "gap_done"}
             if beh == "locker" and "lock" in feat:
                 r["stb"] = rng.getrandbits(1)          # between transfers of a locked cycle
             return r
@@ -248,7 +253,7 @@ def run_arb_case(case, judged):
             if phase == 0:
                 st["hold"][i] = rng.randint(1, 3)
             elif phase == 1:
-                st["hold"][i] = rng.choice([40, 270, 300, 520])
+                st["hold"][i] = rng.choice([40, 270, 300, 520] + ([1100, 1100, 2100] if case["cycles"] >= 2600 else []))
             else:
                 r.update(cyc=0, lock=0)
                 st["hold"][i] = rng.randint(0, 3)
@@ -268,12 +273,22 @@ def run_arb_case(case, judged):
             return r
         if beh == "patient":
             # holds its request until answered, however long the target takes
+            prev_ = st["held"][i]
+            if prev_ is not None and prev_.get("stb") and not prev_.get("gap_done") and \
+                    rng.random() < (0.5 if case.get("scenario") != "soak_unanswered" else 1.0):
+                # ... then a pause between two transfers of the same bus cycle: CYC stays, STB drops for a few cycles
+                r = dict(prev_, stb=0, gap_done=True)
+                if "lock" in r:
+                    r["lock"] = 0
+                st["hold"][i] = rng.randint(0, 2)
+                st["held"][i] = r
+                return {k_: v_ for k_, v_ in r.items() if k_ != "gap_done"}
             r = {"adr": (rng.getrandbits(aw) >> idx_bits << idx_bits | i) & ((1 << aw) - 1), "dat_w": bits(rng, dw),
                  "sel": bits(rng, nsel), "we": rng.getrandbits(1), "cyc": 1, "stb": 1}
             for f, v in (("lock", 0), ("cti", 0), ("bte", 0)):
                 if f in feat:
                     r[f] = v
-            st["hold"][i] = rng.choice([20, 280, 300, 600]) if case.get("scenario") != "soak_unanswered" else 70000
+            st["hold"][i] = rng.choice([20, 280, 300, 600]) if case.get("scenario") != "soak_unanswered" or c > 1000 else 66340 - c
             st["held"][i] = r
             return r
         r = {"adr": (rng.getrandbits(aw) >> idx_bits << idx_bits | i) & ((1 << aw) - 1),
